@@ -638,10 +638,10 @@ def check_started(ctx, R="C14.started"):
 
 
 def check(ctx):
-    check_started(ctx)
-    check_runstate(ctx)
-    check_globals(ctx)
-    check_context_managers(ctx)
-    check_cleanup(ctx)
-    check_overrides(ctx)
-    check_requirement_rebinding(ctx)
+    ctx.run(check_started)
+    ctx.run(check_runstate)
+    ctx.run(check_globals)
+    ctx.run(check_context_managers)
+    ctx.run(check_cleanup)
+    ctx.run(check_overrides)
+    ctx.run(check_requirement_rebinding)
